@@ -346,6 +346,11 @@ theorem cipherUnmarshal_marshal_parts (X Y H C junk : Bytes) (hX : X.length = 32
   rw [List.append_nil] at h2
   rw [h2]
   simp only [Int.natAbs_natCast]
+  have lx : (natBytes (os2ip X)).length ≤ 32 := natBytes_length_le _ 32 (by have := os2ip_lt X; rwa [hX] at this)
+  have ly : (natBytes (os2ip Y)).length ≤ 32 := natBytes_length_le _ 32 (by have := os2ip_lt Y; rwa [hY] at this)
+  have hcond : ¬ (((os2ip X : Nat) : Int) < 0 ∨ ((os2ip Y : Nat) : Int) < 0 ∨ (natBytes (os2ip X)).length > 32 ∨
+      (natBytes (os2ip Y)).length > 32 ∨ H.length ≠ 32) := by omega
+  rw [if_neg hcond]
   rw [leftPad32_natBytes_os2ip X hX, leftPad32_natBytes_os2ip Y hY]
 
 theorem cipherMarshal_parts (X Y H C : Bytes) (hX : X.length = 32) (hY : Y.length = 32) (hH : H.length = 32) :
